@@ -23,12 +23,20 @@ def gen_case(rng, tier, avoid):
     mrl = gen.record_length(rng, small=0.3)
     spec = gen.Spec(rng)
     spec.new_file(mrl=mrl)
-    lfi = spec.logical_file()
-    spec.origin(lfi)
     rows = rng.choice([2, 3, 5, 8, 12, 17, 24, 40])
     used = set()
-    for _ in range(rng.choice([1, 1, 2])):
-        gen.frame_block(spec, lfi, rng, rows=rows, used=used, max_width=8, index=rng.random() < 0.4)
+    n_lf = rng.choice([1, 1, 1, 2, 2, 3])       # the window applies to every frame of every logical file of the storage unit
+    for li in range(n_lf):
+        start = len(spec.ops)
+        lfi = spec.logical_file(**({'fh_id': 'LF-%d' % li} if n_lf > 1 else {}))
+        spec.origin(lfi)
+        for _ in range(rng.choice([1, 1, 2]) if n_lf == 1 else 1):
+            gen.frame_block(spec, lfi, rng, rows=rows, used=used, max_width=8 if n_lf == 1 else 4, index=rng.random() < 0.4)
+        if n_lf > 1:
+            for op in spec.ops[start:]:
+                if op.get('op') == 'add':
+                    op['kwargs'].setdefault('set_name', 'S%d' % li)
+    lfi = spec.lfs[0]
     from .c03 import SAFE_CASTS
     for op in spec.ops:
         if op.get('op') == 'add' and op['kind'] == 'channel' and rng.random() < 0.2:
@@ -53,7 +61,7 @@ def gen_case(rng, tier, avoid):
         pre = {'from_idx': a0, 'to_idx': rng.choice([a0 + 1, rng.randint(a0 + 1, rows)])}
     return {'scenario': {'env': {'tz': 'UTC'}, 'history': spec.ops},
             'params': {'window': win, 'ics': ics, 'pre_window': pre, 'ext_seed': rng.randrange(1 << 30), 'rows': rows,
-                       'kinds': ['dict', 'struct', 'h5'], 'avoid_fastpath_window': 'fastpath_window' in avoid}}
+                       'kinds': ['dict', 'struct', 'h5'], 'avoid_fastpath_window': 'fastpath_window' in avoid, 'n_lf': n_lf}}
 
 
 def _presliced(ops, a, b):
@@ -124,14 +132,14 @@ def check_case(case, ex):
             C.bump(stats['skipped'], 'fastpath_window_avoided')
             continue
         o2, F2, st2 = write(ops, pre=P.get('pre_window'), **dict(dkw, **dict(ikw, **wkw)))
-        fp = {'kind': kind, 'window': True, 'after_earlier_window': bool(P.get('pre_window')), 'from_gt0': a > 0, 'to_given': b is not None, 'ics': C.ics_class(ics, max((b or rows) - a, 1))}
+        fp = {'kind': kind, 'window': True, 'n_lf': min(P.get('n_lf', 1), 2), 'after_earlier_window': bool(P.get('pre_window')), 'from_gt0': a > 0, 'to_given': b is not None, 'ics': C.ics_class(ics, max((b or rows) - a, 1))}
         if o2 != 'ok':
             out.append(C.V('C11.outcome_differs', fp, exc=st2.get('exc'), msg=st2.get('msg'), window=[a, b]))
         elif F2 != F_pre:
             out.append(C.V('C11.window_differs_from_preslice', fp, window=[a, b], **_diff(F2, F_pre)))
         if kind != 'inline' and (a > 0 or (b is not None and b < rows)) and ics is not None and ics < (b or rows) - a:
             stats['nontrivial'] = True
-        stats['state_sigs'].append('%s|a%d|b%s|%s' % (kind, min(a, 3), b is None or b == rows, C.ics_class(ics, rows)))
+        stats['state_sigs'].append('%s|a%d|b%s|%s|lf%d' % (kind, min(a, 3), b is None or b == rows, C.ics_class(ics, rows), P.get('n_lf', 1)))
     return {'violations': out, 'stats': stats}
 
 
